@@ -56,6 +56,9 @@ type Run struct {
 	evaluations  int64
 	distinct     map[uint64]struct{} // 64-bit hashes of the signatures (bounded memory)
 	distinctFull bool
+	worker       bool
+	grpCount     map[string]int
+	dropped      map[string]int64
 	samples      []any
 	maxSamples   int
 	counters     map[string]int64
@@ -189,6 +192,22 @@ func (r *Run) Violate(v Violation) {
 				}
 				return
 			}
+		}
+	}
+	// memory bound: a worker keeps the first few witnesses of every group (classifier key + start of the
+	// summary) and only counts the rest - a listed finding can occur millions of times in a thorough run
+	if r.worker {
+		grp := v.Key + "|" + v.Summary
+		if len(grp) > len(v.Key)+45 {
+			grp = grp[:len(v.Key)+45]
+		}
+		if r.grpCount == nil {
+			r.grpCount, r.dropped = map[string]int{}, map[string]int64{}
+		}
+		r.grpCount[grp]++
+		if r.grpCount[grp] > 6 {
+			r.dropped[v.Key]++
+			return
 		}
 	}
 	r.violations = append(r.violations, v)
@@ -366,6 +385,7 @@ type Partial struct {
 	Violations   []Violation      `json:"violations"`
 	Inconclusive []string         `json:"inconclusive"`
 	Extra        map[string]any   `json:"extra,omitempty"`
+	Dropped      map[string]int64 `json:"dropped,omitempty"` // violations counted but not kept, by classifier key
 }
 
 // Export turns the run into a Partial (worker side).
@@ -377,6 +397,7 @@ func (r *Run) Export() Partial {
 		p.Distinct = append(p.Distinct, k)
 	}
 	p.DistinctFull = r.distinctFull
+	p.Dropped = r.dropped
 	for i := int64(0); i < r.inconclusive; i++ {
 		note := "inconclusive"
 		if int(i) < len(r.inconcNotes) {
@@ -389,7 +410,7 @@ func (r *Run) Export() Partial {
 
 // NewWorker makes a Run that only accumulates (no known-findings filtering; the parent does that).
 func NewWorker(id, tier string, seed int64) *Run {
-	return &Run{ID: id, Tier: tier, Seed: seed, Level: "exploration", start: time.Now(),
+	return &Run{ID: id, Tier: tier, Seed: seed, Level: "exploration", start: time.Now(), worker: true,
 		distinct: map[uint64]struct{}{}, counters: map[string]int64{}, known: map[string]int{},
 		knownWhat: map[string]string{}, extra: map[string]any{}, maxSamples: 3, floors: map[string]int64{}}
 }
@@ -416,6 +437,21 @@ func (r *Run) Merge(p Partial) {
 	}
 	for _, n := range p.Inconclusive {
 		r.Inconclusive(n)
+	}
+	for k, n := range p.Dropped {
+		r.mu.Lock()
+		listed := false
+		for _, f := range r.findings {
+			if k != "" && f.Kind == "known" && f.Property == r.ID && f.Key == k {
+				r.known[k] += int(n)
+				r.knownWhat[k] = f.What
+				listed = true
+			}
+		}
+		if !listed {
+			r.counters["violations_counted_without_witness"] += n
+		}
+		r.mu.Unlock()
 	}
 	for k, v := range p.Extra {
 		if l, ok := v.([]any); ok {
